@@ -25,6 +25,12 @@ class Builder:
         self.vars = [{"n": names[i - 1], "t": "int"} for i in self.ints] + [{"n": "b%d" % i, "t": "bool"} for i in self.bools]
         self.blocks = []
         self.nassert = 0
+        self.narrow = None
+
+    def make_narrow(self):
+        """the last integer variable becomes 8 bits wide: only conversions and statements on itself use it"""
+        self.narrow = self.ints.pop()
+        self.vars[self.narrow - 1]["w"] = 8
 
     def block(self, stmts=None):
         self.blocks.append({"succ": [], "stmts": stmts or []})
@@ -57,8 +63,43 @@ class Builder:
                 else:
                     out.append({"op": "assert", "c": hist.cst(self.rng, self.ints, rels=("le", "le", "lt", "eq", "ne")),
                                 "id": self.nassert})
+            elif profile in ("full", "linear") and self.rng.random() < 0.05:
+                # call of an external function (intra-procedural analysis: the outputs are havocked)
+                out.append({"op": "callx", "lhs": self.rng.sample(self.ints, self.rng.randint(1, 2)),
+                            "args": self.rng.sample(self.ints, self.rng.randint(0, 2))})
+            elif profile in ("full", "linear") and self.bools and self.rng.random() < 0.07:
+                out += self.flag_pattern()
             else:
-                out.append(hist.stmt(self.rng, self.ints, self.bools, profile))
+                out.append(hist.stmt(self.rng, self.ints, self.bools, profile, narrow=self.narrow))
+        return out
+
+    def flag_pattern(self):
+        """directed pattern: a boolean remembers a constraint over v, then v is overwritten by one of every kind of defining
+        statement, then the boolean is assumed / asserted: the remembered constraint speaks about the OLD value of v"""
+        R = self.rng
+        b, v = R.choice(self.bools), R.choice(self.ints)
+        o = R.choice([u for u in self.ints if u != v] or self.ints)
+        out = [{"op": "bassign_cst", "x": b, "c": {"e": {"k": R.randint(-1, 1), "t": [[R.choice([1, -1]), v]]}, "r": R.choice(["le", "lt", "eq"])}}]
+        k = R.choice(["callx", "callx", "havoc", "assignc", "assignself", "arith", "select", "zext"])
+        if k == "callx":
+            out.append({"op": "callx", "lhs": [v] if R.random() < 0.6 else [v, o], "args": R.sample(self.ints, R.randint(0, 1))})
+        elif k == "havoc":
+            out.append({"op": "havoc", "x": v})
+        elif k == "assignc":
+            out.append({"op": "assign", "x": v, "e": {"k": R.randint(-2, 2), "t": []}})
+        elif k == "assignself":
+            out.append({"op": "assign", "x": v, "e": {"k": R.choice([-1, 1, 2]), "t": [[R.choice([1, -1]), v]]}})
+        elif k == "arith":
+            out.append({"op": "arith", "f": R.choice(["add", "sub", "mul"]), "x": v, "y": R.choice([v, o]), "zk": 1, "z": R.choice([-1, 1, 2])})
+        elif k == "select":
+            out.append({"op": "select", "x": v, "c": {"e": {"k": 0, "t": [[1, o]]}, "r": "le"}, "e1": {"k": R.randint(-2, 2), "t": []},
+                        "e2": {"k": 1, "t": [[1, v]]}})
+        else:
+            b2 = R.choice(self.bools)
+            out.append({"op": "cast", "f": "zext", "x": v, "y": b2, "sk": "bool", "dk": "int", "sw": 1, "dw": 32})
+        if R.random() < 0.3:
+            out.append(hist.stmt(R, [o], [], "linear"))
+        out.append({"op": "bassume", "x": b, "neg": R.randint(0, 1)})
         return out
 
     def guard(self):
@@ -72,6 +113,8 @@ class Builder:
 def program(rng, pid, shape=None, profile="full", nstmts=(0, 3), asserts=True, nints=3, nbools=1):
     bld = Builder(rng, nints, nbools)
     R = rng
+    if nints == 3 and profile in ("full", "linear") and R.random() < 0.2:
+        bld.make_narrow()
     shape = shape or R.choice(["chain", "diamond", "loop", "loop", "nested", "irreducible", "selfloop", "entryloop",
                                "unreachable", "twoloops", "random"])
 
@@ -176,7 +219,10 @@ def program(rng, pid, shape=None, profile="full", nstmts=(0, 3), asserts=True, n
             bld.edge(ids[0], ids[1])
         entry, exit_ = ids[0], ids[-1]
     init = []
-    if R.random() < 0.6:
+    if profile in ("full", "linear") and bld.bools and R.random() < 0.06:
+        # the flag pattern as the first statements of the analysis, started from top (some domains take short cuts on top)
+        bld.blocks[entry - 1]["stmts"][0:0] = bld.flag_pattern()
+    elif R.random() < 0.6:
         for _ in range(R.randint(1, 2)):
             init.append(hist.cst(R, bld.ints, rels=("le", "le", "eq"), maxterms=1))
     return {"id": pid, "shape": shape, "vars": bld.vars, "kinds": [v["t"] for v in bld.vars], "nv": len(bld.vars),
